@@ -121,6 +121,10 @@ LAYOUTS = {
     # statusword travels by SDO (G) or in the valid TPDO behind it (H)
     "G": {"rpdo": {1: [(0x6040, 16)]}, "tpdo_off": {1: [(0x6041, 16)]}, "tpdo": {}},
     "H": {"rpdo": {1: [(0x6040, 16)]}, "tpdo_off": {1: [(0x6041, 16)]}, "tpdo": {2: [(0x6041, 16), (0x6061, 8)]}},
+    # TPDO 2 is valid and synchronous (transmission type 1) but no SYNC is produced, so it never
+    # comes; the event-driven TPDO 1 in front of it carries the statusword
+    "I": {"rpdo": {1: [(0x6040, 16)]}, "tpdo": {1: [(0x6041, 16)]},
+          "tpdo_sync": {2: [(0x6041, 16), (0x6064, 32)]}},
     "F": {"rpdo_off": {1: [(0x6040, 16)], 2: [(0x6060, 8), (0x6040, 16)]}, "rpdo": {}, "tpdo": {1: [(0x6041, 16)]}},
 }
 RPDO_BASE = [0x200, 0x300, 0x400, 0x500]
@@ -182,7 +186,7 @@ class RefDrive402:
 
     def __init__(self, node_id, start=SOD, k=0, extras=(0,), qs="stay", cw0=0, supported=0,
                  display=0, kmode=0, layout="none", tpdo_tt=255, rpdo_tt=255, level=False,
-                 timer_only=False):
+                 timer_only=False, evt=0):
         self.node_id = node_id
         self.level = level
         self.timer_only = timer_only    # TPDOs only on the event timer (clock ticks), not on change
@@ -197,6 +201,7 @@ class RefDrive402:
         self.layout = LAYOUTS[layout]
         self.tpdo_tt = tpdo_tt
         self.rpdo_tt = rpdo_tt
+        self.evt = evt                  # event timer / reception deadline (sub 5) of every PDO, ms
         self.lock = threading.RLock()
         self.hub = None
         self.port = None
@@ -361,14 +366,18 @@ class RefDrive402:
             for i in range(4):
                 entries = self.layout[kind].get(i + 1)
                 cob = bases[i] + self.node_id
-                if not entries:
+                this_tt = tt
+                if not entries and self.layout.get(kind + "_sync", {}).get(i + 1):
+                    entries = self.layout[kind + "_sync"][i + 1]
+                    this_tt = 1
+                elif not entries:
                     cob |= 0x80000000
                     entries = self.layout.get(kind + "_off", {}).get(i + 1)
                 st[(com + i, 0)] = b"\x05"
                 st[(com + i, 1)] = struct.pack("<L", cob)
-                st[(com + i, 2)] = bytes([tt])
+                st[(com + i, 2)] = bytes([this_tt])
                 st[(com + i, 3)] = struct.pack("<H", 0)
-                st[(com + i, 5)] = struct.pack("<H", 0)
+                st[(com + i, 5)] = struct.pack("<H", self.evt)
                 entries = entries or []
                 st[(mp + i, 0)] = bytes([len(entries)])
                 for s in range(1, 9):
